@@ -22,9 +22,9 @@ from typing import Dict, List, Optional, Tuple
 from ..model import AnalysisError, ClassInfo, FunctionInfo, Model
 from ..paths import Path, PathEnumerator, find_calls
 from ..report import Report
-from ..sym import (FALSE, NONE, TRUE, Evaluator, Frame, Outcome, Term, Unsupported, atoms_of, const, lin, show, subst, subterms,
+from ..sym import (FALSE, NONE, TRUE, Evaluator, Frame, Outcome, Term, Unsupported, atoms_of, const, lin, number, show, subst, subterms,
                    sym, t_add, t_and, t_cmp, t_not, t_or)
-from .common import (call_arg, call_args, effect_calls, is_call_of, loop_of, node_iterator_domain, norm_stmt, stores,
+from .common import (call_arg, call_args, effect_calls, is_call_of, loop_of, node_iterator_domain, norm_stmt, returns_receiver, stores,
                      strip_identity_wrappers)
 
 SPEC_EQUATIONS = {
@@ -203,23 +203,46 @@ def cmp_dir(cond: Term, x: Term, y: Term) -> Optional[str]:
 def check_arg_extreme_loop(rep: Report, rule: str, construct: str, loc: str, path: Path, coll: Term, key: str, want: str,
                            what: str) -> bool:
     """``acc = coll[i]; for e in coll: if e.key > acc.key: acc = e; return acc`` (want='max') as a loop summary.
-    Returns True when the shape was recognised (verdict recorded either way)."""
+    Also read: a scan over ``coll[1:]`` when the accumulator starts at ``coll[0]`` (together the whole group), and a second accumulator that
+    carries ``acc.key`` (updated exactly when ``acc`` is).  Returns True when the shape was recognised (verdict recorded either way)."""
     lp = loop_of(path)
     if lp is None:
         return False
-    dom_ok = strip_identity_wrappers(lp.term) == coll
-    rep.check(dom_ok, rule, construct + "[domain]", loc, found=show(lp.term), required=show(coll) + " (the whole group)",
-              what="the scan does not range over the whole group of reference nodes", detail="domain")
     acc_after = path.value
     if acc_after is None or acc_after[0] != "after":
         return False
     acc_name = acc_after[1]
     init = lp.extra["init_env"].get(acc_name)
-    elem = ("bound", "for", lp.node.lineno, show(lp.term))
+    dom = strip_identity_wrappers(lp.term)
     init_ok = init is not None and init[0] == "sub" and strip_identity_wrappers(init[1]) == coll
+    first = init_ok and number(init[2]) == 0
+    rest = dom[0] == "slice" and strip_identity_wrappers(dom[1]) == coll and number(dom[2]) == 1 and dom[3] == NONE and dom[4] in (NONE, lin({}, Fraction(1)))
+    dom_ok = dom == coll or (first and rest)
+    rep.check(dom_ok, rule, construct + "[domain]", loc, found=show(lp.term), required=show(coll) + " (the whole group)",
+              what="the scan does not range over the whole group of reference nodes", detail="domain")
+    elem = ("bound", "for", lp.node.lineno, show(lp.term))
     rep.check(init_ok, rule, construct + "[init]", loc, found=show(init) if init else None, required="an element of the group",
               what="the accumulator does not start as a member of the group", detail="init")
     acc = ("loopvar", acc_name, lp.node.lineno)
+    # companions: b == acc.key as a loop invariant (same initial relation, updated on exactly the same paths to the same relation)
+    companions: Dict[Term, Term] = {}
+    for b in lp.extra["assigned"]:
+        if b == acc_name or b not in lp.extra["init_env"]:
+            continue
+        bi = lp.extra["init_env"][b]
+        if init is None or bi != ("attr", init, key):
+            continue
+        bv = ("loopvar", b, lp.node.lineno)
+        inv = True
+        for bp in lp.extra["paths"]:
+            na, nb = bp.env.get(acc_name), bp.env.get(b)
+            if na == acc and nb == bv:
+                continue
+            if na is not None and nb == ("attr", na, key):
+                continue
+            inv = False
+        if inv:
+            companions[bv] = ("attr", acc, key)
     problems = []
     replaced_when = []
     for bp in lp.extra["paths"]:
@@ -231,7 +254,7 @@ def check_arg_extreme_loop(rep: Report, rule: str, construct: str, loc: str, pat
         if newv != elem:
             problems.append(f"accumulator set to {show(newv)}")
             continue
-        replaced_when.append(bp.cond)
+        replaced_when.append(subst(bp.cond, companions) if companions else bp.cond)
     if len(replaced_when) != 1:
         problems.append(f"{len(replaced_when)} replacing paths")
     else:
@@ -243,6 +266,30 @@ def check_arg_extreme_loop(rep: Report, rule: str, construct: str, loc: str, pat
               required=f"{'latest' if want == 'max' else 'earliest'}: replace exactly when candidate.{key} {'>' if want == 'max' else '<'} current.{key}",
               what=what + ": " + "; ".join(problems), detail="direction")
     return True
+
+
+def key_selects(model: Model, key: Optional[Term], attr: str) -> bool:
+    """``key=`` argument of max/min/sorted that maps an element to ``element.<attr>``: a lambda, or a named function / static method doing that."""
+    if key is None:
+        return False
+    if key[0] == "lambda":
+        return re.fullmatch(r"lambda (\w+): \1\." + re.escape(attr), key[1]) is not None
+    if key[0] == "fn":
+        cands = [f for f in model.all_functions() if f.qualname == key[1]]
+        if len(cands) != 1:
+            return False
+        f = cands[0]
+        names = [p for p in f.param_names if not (f.kind in ("method", "classmethod") and p == f.self_name)]
+        if len(names) != 1:
+            return False
+        try:
+            v = Evaluator(model, inline_methods=False, opaque={x.qualname for x in model.all_functions() if x.name == attr}).value_of(f, self_cls=f.cls)
+        except Unsupported:
+            return False
+        return v == ("attr", sym(names[0]), attr)
+    if key[0] == "call" and key[1] in (("global", "attrgetter"), "attrgetter") and key[2] == (("const", attr),):
+        return True
+    return False
 
 
 def r4(model: Model, rep: Report):
@@ -272,8 +319,7 @@ def r4(model: Model, rep: Report):
         # max(...) idiom
         v = p.value
         if v is not None and v[0] == "call" and v[1] == "max" and v[2] and strip_identity_wrappers(v[2][0]) == coll:
-            key = dict(v[3]).get("key")
-            ok = key is not None and key[0] == "lambda" and re.fullmatch(r"lambda (\w+): \1\.end_time", key[1]) is not None
+            ok = key_selects(model, dict(v[3]).get("key"), "end_time")
             rep.check(ok, "C01.R4", construct, f.loc, found=show(v), required="max(group, key=end_time)", what="not the latest-ending member", detail="direction")
             recognised = True
             continue
@@ -431,7 +477,7 @@ def r6(model: Model, rep: Report):
                       required="parent = node of relation_link.reference_node, link untouched",
                       what="graph parent and relation reference disagree", detail="relation")
         rv = p.value
-        rep.check(p.exit == "return" and rv == graph, "C01.R6", construct + "[returns-graph]", f.loc, found=show(rv) if rv else p.exit, required="return graph",
+        rep.check(p.exit == "return" and rv is not None and returns_receiver(model, ev, rv, graph), "C01.R6", construct + "[returns-graph]", f.loc, found=show(rv) if rv else p.exit, required="return graph",
                   what="add_to_graph does not hand back the graph it updated", detail="return")
     rep.floor("feasible paths of add_to_graph", n_paths, 3)
     rep.analysed["C01.R6 feasible paths"] = n_paths
